@@ -81,6 +81,7 @@ func (s *Spool) Writer() {
 			return
 		case buf := <-s.InRT: // wish we could somehow prioritize this higher
 			s.numIncomingRT.Inc(1)
+			verifEvent("spool.rt", s.key, s, buf)
 			//pre = time.Now()
 			log.Debugf("spool %v satisfying spool RT", s.key)
 			log.Tracef("spool %s %s Writer -> queue.Put", s.key, buf)
@@ -90,6 +91,7 @@ func (s *Spool) Writer() {
 			//fmt.Println("queueBuffer duration RT:", post.Sub(pre).Nanoseconds())
 		case buf := <-s.InBulk:
 			s.numIncomingBulk.Inc(1)
+			verifEvent("spool.bulk", s.key, s, buf)
 			//pre = time.Now()
 			log.Debugf("spool %v satisfying spool BULK", s.key)
 			log.Tracef("spool %s %s Writer -> queue.Put", s.key, buf)
@@ -116,6 +118,7 @@ func (s *Spool) Buffer() {
 			s.numBuffered.Dec(1)
 			//pre := time.Now()
 			s.durationWrite.Time(func() { s.queue.Put(buf) })
+			verifEvent("spool.put", s.key, s, buf)
 			//post := time.Now()
 			//fmt.Println("PUT DURATION", post.Sub(pre).Nanoseconds())
 		}
